@@ -18,6 +18,8 @@ except ImportError:  # pragma: no cover
 
 
 def _const_list(e):
+    if isinstance(e, ast.Call) and isinstance(e.func, ast.Name) and e.func.id in ("list", "tuple") and len(e.args) == 1 and not e.keywords:
+        e = e.args[0]
     if isinstance(e, (ast.List, ast.Tuple)) and all(isinstance(x, ast.Constant) for x in e.elts):
         return [x.value for x in e.elts]
     return None
